@@ -30,7 +30,10 @@ import (
 	"time"
 
 	"github.com/risor-io/risor"
+	"github.com/risor-io/risor/compiler"
 	"github.com/risor-io/risor/object"
+	"github.com/risor-io/risor/parser"
+	"github.com/risor-io/risor/vm"
 
 	"verif/internal/ev"
 )
@@ -45,10 +48,13 @@ type cfgSpec struct {
 	OverrideFirst bool     `json:"override_first,omitempty"` // option order
 	Host          bool     `json:"host_global,omitempty"`    // adds the host global c11_host
 	Variadic      bool     `json:"variadic,omitempty"`       // WithoutGlobals(a, b) instead of two WithoutGlobal
+	Family        string   `json:"family,omitempty"`         // deny-list family (built repeatedly: the list is applied in Go map order)
 }
 
 func (c cfgSpec) kind() string {
 	switch {
+	case c.Family != "":
+		return c.Family
 	case c.NoDefaults && c.Host:
 		return "no-defaults+host"
 	case c.NoDefaults:
@@ -75,8 +81,12 @@ func (c cfgSpec) String() string {
 	if c.Host {
 		p = append(p, "WithGlobal(c11_host)")
 	}
-	for _, d := range c.Deny {
-		p = append(p, "WithoutGlobal("+d+")")
+	if c.Variadic && len(c.Deny) > 0 {
+		p = append(p, "WithoutGlobals("+strings.Join(c.Deny, ", ")+")")
+	} else {
+		for _, d := range c.Deny {
+			p = append(p, "WithoutGlobal("+d+")")
+		}
 	}
 	for _, o := range c.Override {
 		p = append(p, "WithGlobalOverride("+o+", "+c.Repl+" c11_replacement)")
@@ -174,6 +184,8 @@ type universe struct {
 	byTarget map[string][]int
 	notAppl  []string
 	aliases  []string
+
+	thoroughRepeated bool
 }
 
 func loadUniverse(r *ev.Run) *universe {
@@ -368,6 +380,28 @@ func evalScript(src string, opts []risor.Option) (res evalRes) {
 	return evalRes{obj: o, err: err}
 }
 
+// evalOnConfig runs a script on an already constructed Config: the body of
+// risor.Eval after NewConfig (parse, compile with cfg.CompilerOpts, run with cfg.VMOpts).
+func evalOnConfig(cfg *risor.Config, src string) (res evalRes) {
+	atomic.AddInt64(&evals, 1)
+	defer func() {
+		if e := recover(); e != nil {
+			res = evalRes{panicked: fmt.Sprint(e)}
+		}
+	}()
+	ctx := context.Background()
+	tree, err := parser.Parse(ctx, src)
+	if err != nil {
+		return evalRes{err: err}
+	}
+	main, err := compiler.Compile(tree, cfg.CompilerOpts()...)
+	if err != nil {
+		return evalRes{err: err}
+	}
+	o, err := vm.Run(ctx, main, cfg.VMOpts()...)
+	return evalRes{obj: o, err: err}
+}
+
 func errClass(err error) string {
 	s := err.Error()
 	if strings.HasPrefix(s, "compile error") {
@@ -429,13 +463,17 @@ type pendingReport struct {
 	in                            caseIn
 }
 
+type risorConfig = risor.Config
+
 type caseIn struct {
-	Kind   string    `json:"kind"` // closure | script | sequence | sequence-script
+	Kind   string    `json:"kind"` // closure | script | sequence | sequence-script | repeated
 	Cfg    cfgSpec   `json:"config"`
 	Script string    `json:"script,omitempty"`
 	Target string    `json:"target,omitempty"`
 	Form   string    `json:"form,omitempty"`
 	Seq    []cfgSpec `json:"sequence,omitempty"`
+	Reps   int       `json:"repetitions,omitempty"`
+	Order  *orderDev `json:"map_orders,omitempty"`
 }
 
 // effective returns the names whose original objects the configuration removes:
@@ -475,6 +513,11 @@ func (u *universe) checkClosure(r *ev.Run, report reporter, c cfgSpec, verbose b
 		report("c11-panic", "building "+c.String()+" panicked: "+pan, in, "panic", "a Config")
 		return 0, 0
 	}
+	return u.closureOracle(r, report, c, in, globals, repl, verbose)
+}
+
+// closureOracle computes the closure of one constructed configuration and applies the oracle of part (a).
+func (u *universe) closureOracle(r *ev.Run, report reporter, c cfgSpec, in caseIn, globals map[string]any, repl object.Object, verbose bool) (states, trans int) {
 	g := buildGraph(globals, u.alphabet)
 	if g.capped {
 		r.Cap("closure of " + c.String() + " exceeds 200000 objects; expansion stopped")
@@ -562,11 +605,24 @@ func keys2(m map[string]int) []string {
 
 // checkScript is part (b) for one configuration and one attempt.
 func (u *universe) checkScript(r *ev.Run, report reporter, c cfgSpec, a attempt, verbose bool) {
+	u.checkScriptOn(r, report, c, nil, a, verbose)
+}
+
+// checkScriptOn evaluates the attempt with risor.Eval under the options of c (built == nil)
+// or on an already constructed Config of c (built != nil; only for configurations without overrides).
+func (u *universe) checkScriptOn(r *ev.Run, report reporter, c cfgSpec, built *risor.Config, a attempt, verbose bool) {
 	if a.F0 == "" {
 		return
 	}
-	opts, repl := c.options()
-	res := evalScript(a.Script, opts)
+	var res evalRes
+	var repl object.Object
+	if built != nil {
+		res = evalOnConfig(built, a.Script)
+	} else {
+		var opts []risor.Option
+		opts, repl = c.options()
+		res = evalScript(a.Script, opts)
+	}
 	in := caseIn{Kind: "script", Cfg: c, Script: a.Script, Target: a.Target, Form: a.Form}
 	removed, denied, overridden := u.effective(c)
 	// the replacement is demanded on paths that end at the overridden name and pass through no other removed name
@@ -869,6 +925,61 @@ func Check(r *ev.Run, replay string) {
 	for _, p := range pending {
 		r.Report(p.sig, p.what, p.in, p.observed, p.expected)
 	}
+	if os.Getenv("VERIF_C11_TIMING") != "" {
+		fmt.Fprintf(os.Stderr, "c11: per-configuration phase done at %.1fs\n", time.Since(t0).Seconds())
+	}
+
+	// deny lists of several names (applied by risor in Go map order): every configuration built repeatedly
+	rcfgs, rsizes, unres := u.repeatedFamilies(r.Thorough())
+	if unres == nil {
+		r.EngineError("the unresolvable spellings collide with names of U")
+		return
+	}
+	probe, _ := mapOrderProbe()
+	if !ownedOrders {
+		r.Cap("built without the map seam: Go's map order is not owned, every deny-list configuration was only constructed repeatedly")
+	}
+	var rmu sync.Mutex
+	var rtot repeatedStats
+	maxShapes := 0
+	pending = nil
+	ev.ParFor(len(rcfgs), func(i int) {
+		report := func(sig, what string, in caseIn, observed, expected string) {
+			pmu.Lock()
+			pending = append(pending, pendingReport{i, sig, what, observed, expected, in})
+			pmu.Unlock()
+		}
+		st := u.checkRepeated(r, report, rcfgs[i], r.Thorough(), r.Thorough(), false)
+		addST(st.states, st.trans)
+		rmu.Lock()
+		rtot.constructions += st.constructions
+		rtot.closures += st.closures
+		rtot.sites += st.sites
+		if st.shapes > maxShapes {
+			maxShapes = st.shapes
+		}
+		rmu.Unlock()
+	})
+	sort.SliceStable(pending, func(a, b int) bool { return pending[a].job < pending[b].job })
+	for _, p := range pending {
+		r.Report(p.sig, p.what, p.in, p.observed, p.expected)
+	}
+	r.Set("repeated_deny_lists", map[string]any{
+		"configurations":                           len(rcfgs),
+		"by_family":                                rsizes,
+		"unresolvable_spellings":                   unres,
+		"map_order_owned_by_harness":               ownedOrders,
+		"dynamic_map_range_sites_visited":          rtot.sites,
+		"constructions":                            rtot.constructions,
+		"closures":                                 rtot.closures,
+		"max_distinct_shapes_of_one_configuration": maxShapes,
+		"map_order_probe":                          probe,
+	})
+	u.thoroughRepeated = r.Thorough()
+	if os.Getenv("VERIF_C11_TIMING") != "" {
+		fmt.Fprintf(os.Stderr, "c11: repeated deny lists done at %.1fs\n", time.Since(t0).Seconds())
+	}
+	r.Sample(caseIn{Kind: "repeated", Cfg: cfgSpec{Deny: []string{"nosuch.thing", "os.exit"}, Variadic: true, Family: "unresolvable+name"}})
 	r.Sample(caseIn{Kind: "closure", Cfg: cfgSpec{Deny: []string{"os.exit"}}})
 	r.Sample(caseIn{Kind: "script", Cfg: cfgSpec{Deny: []string{"os.exit"}}, Script: "os.getenv.__module__.exit", Target: "os.exit", Form: "backref-attr"})
 	r.Sample(caseIn{Kind: "script", Cfg: cfgSpec{Override: []string{"os.getenv"}, Repl: "builtin"}, Script: "from os import getenv\ngetenv", Target: "os.getenv", Form: "from-import"})
@@ -972,6 +1083,19 @@ func (u *universe) finish(r *ev.Run, states, trans int64, ncfg, pairs int) {
 		rule += "; every pair of denials inside one module, module+member, deny a + override b for every ordered pair inside one module, every pair of alias names (all with script attempts); every other pair of denials over U (closure only)"
 	}
 	rule += "; per configuration: full GetAttr closure from cfg.Globals() over the attribute alphabet (fixpoint) and every script attempt for the removed names (identifier, in function, import, import-as, from-import, from-import-as, attribute, getattr, back-references through every baseline path that reaches the module) evaluated with risor.Eval; independence: sequences (R, default) and (default, R, default) for every single denial / override / no-defaults R, built sequentially, plus Eval(R) then Eval(default). distinct = (configuration kind, attempt form, outcome class) tuples"
+	rule += "; deny lists of several names: (a) WithoutGlobals(u, n) and (n, u) for every n in U and 3 unresolvable spellings u (no such module / nested path below a missing member / missing member of an existing module), (b) every insertion order of (m, m.x, other) for every module m and member x"
+	if u.thoroughRepeated {
+		rule += " and 3 names outside m"
+	} else {
+		rule += " and 1 of 3 names outside m (rotating)"
+	}
+	rule += ", (c) every ordered selection of " + map[bool]string{true: "3 and of 4", false: "3"}[u.thoroughRepeated] + " names from a pool of 2 plain, 2 dotted and 3 unresolvable names that mixes resolvable and unresolvable ones. risor applies the deny list in the iteration order of a Go map: the check is built with the map seam (tools/mapseam rewrites every range over a Go map in risor's packages into the virtual package vseam, build overlay only), so the harness owns that order: every configuration is constructed in the base (sorted) order and once for every single-site deviation at every map range the construction executes (every permutation for <= 4 keys - this covers every application order of every deny list here; quick: outside risor_config.go/risor_globals.go/risor_options.go only the reverse order; for larger maps the reverse order, thorough also three rotations and both boundary swaps); every permutation of a list is also its own configuration (insertion order)"
+	if u.thoroughRepeated {
+		rule += ", with the full closure oracle on every construction"
+	} else {
+		rule += "; quick tier: the full closure oracle on the first construction and on every construction whose name shape (global names + member names of every module, i.e. all a deny list can change) was not closed yet for that configuration"
+	}
+	rule += "; the primary script attempts for the resolvable denied names run on the first construction of every distinct shape on that very Config (parse, compile with cfg.CompilerOpts, vm.Run with cfg.VMOpts = the body of risor.Eval) and, one form per target, through risor.Eval. Unresolvable names are a documented no-op and carry no demand"
 	r.Set("rule", rule)
 }
 
@@ -1015,6 +1139,19 @@ func replayOne(r *ev.Run, u *universe, path string) {
 		}
 	case "sequence":
 		u.runSequence(r, in.Seq, true)
+	case "repeated":
+		// every order of every map range the construction executes, full closure each time
+		for i := range u.attempts {
+			a := &u.attempts[i]
+			for _, d := range in.Cfg.Deny {
+				if a.Target == d && primaryForms[a.Form] {
+					if res := evalScript(a.Script, nil); res.err == nil && res.obj != nil {
+						a.F0 = fp(res.obj)
+					}
+				}
+			}
+		}
+		u.checkRepeated(r, direct(r), in.Cfg, true, true, true)
 	default:
 		r.EngineError("replay: unknown kind " + in.Kind)
 	}
